@@ -231,18 +231,24 @@ class CardMonitor(Monitor):
             i = op.player_index
             if len(after['hole'][i]) != len(before['hole'][i]):
                 ctx.violate(f'{where}: number of hole cards changed')
-            revealed = 0
-            for b, a in zip(before['hole'][i], after['hole'][i]):
-                if b and a != b and not (a in before['hole'][i]):
-                    ctx.violate(f'{where}: known card {b!r} replaced by '
-                                f'{a!r}')
-                if not b and a:
-                    revealed += 1
-            if Counter(c for c in after['hole'][i] if c) - Counter(
-                    c for c in before['hole'][i] if c) and not revealed:
-                ctx.violate(f'{where}: showing changed the known cards')
-            for a in after['hole'][i]:
-                if a and a not in before['hole'][i] and a in inplay_before:
+            kb = Counter(c for c in before['hole'][i] if c)
+            ka = Counter(c for c in after['hole'][i] if c)
+            fresh = list((ka - kb).elements())
+            gone = list((kb - ka).elements())
+            nunk_b = sum(1 for c in before['hole'][i] if not c)
+            revealed = len(fresh)
+            if revealed > nunk_b + len(gone):
+                ctx.violate(f'{where}: more cards revealed ({fresh}) than '
+                            f'unknown cards held')
+            for c in gone:
+                # a partial show at the final showdown hides the other
+                # cards: they must then be back in the undealt deck
+                ctx.counters['unshown_cards_returned_to_deck'] += 1
+                if c not in after['deck']:
+                    ctx.violate(f'{where}: known card {c!r} left the hand '
+                                f'and is not in the deck')
+            for a in fresh:
+                if a in inplay_before:
                     ctx.violate(f'{where}: revealed card {a!r} was already '
                                 f'in play')
             if after['muck'] != before['muck'] and not revealed:
@@ -310,6 +316,11 @@ def gen_kwargs(rng):
 def pol_tweak(pol, cfg, rng):
     if rng.random() < 0.12:
         pol['deal'] = 'unknown'
+        # unknown hands cannot be shown automatically (outside the
+        # quantifier: "hands reaching a showdown are known")
+        cfg['autos'] = [a for a in cfg['autos']
+                        if a != 'HOLE_CARDS_SHOWING_OR_MUCKING']
+    pol['partial_show'] = rng.random() < 0.3
     if cfg.get('game') in gen.DRAW_GAMES and rng.random() < 0.6:
         pol['policy'] = 'drawheavy'
     elif rng.random() < 0.3:
